@@ -92,6 +92,57 @@ impl Kernel for K17 {
     }
 }
 
+/// `GaussianProcess<K>: Serialize` needs `K: Serialize`; the kernel itself is not needed in the rendering (only the private
+/// field `alpha` is read from it, see `alpha_of`), so it is written as a unit.
+impl serde::Serialize for K17 {
+    fn serialize<S: serde::Serializer>(&self, s: S) -> Result<S::Ok, S::Error> {
+        s.serialize_unit()
+    }
+}
+
+/// the PRIVATE cached field `alpha` of a process, through its public serde rendering (`float_roundtrip`: exact)
+fn alpha_of(gp: &GaussianProcess<K17>) -> Vec<f64> {
+    fn nums(v: &serde_json::Value, out: &mut Vec<f64>) -> bool {
+        match v {
+            serde_json::Value::Array(xs) if xs.iter().all(|x| x.is_number() || x.is_null()) => {
+                out.extend(xs.iter().map(|x| x.as_f64().unwrap_or(f64::NAN)));
+                true
+            }
+            _ => false,
+        }
+    }
+    let v = serde_json::to_value(gp).expect("serde rendering of the process");
+    let a = &v["alpha"];
+    let mut out = Vec::new();
+    // nalgebra renders a dynamic vector as its storage `[[data…], nrows, ncols]` (or as a plain list)
+    if let serde_json::Value::Array(parts) = a {
+        if let Some(first) = parts.first() {
+            if first.is_array() && nums(first, &mut out) {
+                return out;
+            }
+        }
+    }
+    if nums(a, &mut out) {
+        return out;
+    }
+    panic!("alpha not found in the serde rendering: {}", a)
+}
+
+/// everything observable of a trained process at the query points:
+/// `L<p> parameters  ln_m  L<n> alpha  L<nq> mean  L<nq²> cov  L<nq> variance`
+fn state_block(gp: &GaussianProcess<K17>, xq: &[DVector<f64>]) -> String {
+    let p = gp.sample_function(xq);
+    format!(
+        "{} {} {} {} {} {}",
+        wr_vec(&gp.parameters()),
+        tok(&gp.ln_m()),
+        tok(&alpha_of(gp)),
+        wr_vec(&p.mean().unwrap()),
+        wr_mat(p.cov()),
+        wr_vec(&p.variance().unwrap())
+    )
+}
+
 thread_local! {
     static SPIED: RefCell<Option<DMatrix<f64>>> = RefCell::new(None);
 }
@@ -308,6 +359,33 @@ pub fn dispatch(op: &str, _kind: &str, a: &mut Args) -> Option<String> {
             match gp.set_parameters(&DVector::from_vec(th)) {
                 Ok(g) => wr_vec(&g.parameters()),
                 Err(e) => wr_gperr(&e),
+            }
+        }
+        "gp.state" => {
+            let gp = gp!();
+            let xq = rd_indices(a);
+            state_block(&gp, &xq)
+        }
+        "gp.set_vs_fresh" => {
+            // A = the process after `set_parameters(θ)`;  B = a process trained from scratch with `kernel.reparameterize(θ)` on the
+            // same data and noise.  On error of `set_parameters`: the error token, then the state of the ORIGINAL process.
+            let k = rd_tree(a);
+            let nm = rd_noise(a);
+            let x = rd_pts(a);
+            let y = DVector::from_vec(a.list(|a| a.f()));
+            let th = a.list(|a| a.f());
+            let xq = rd_indices(a);
+            let gp = match GaussianProcess::train(k.clone(), x.clone(), y.clone(), nm.clone()) {
+                Ok(g) => g,
+                Err(e) => return Some(wr_gperr(&e)),
+            };
+            match gp.clone().set_parameters(&DVector::from_vec(th.clone())) {
+                Err(e) => format!("{} {}", wr_gperr(&e), state_block(&gp, &xq)),
+                Ok(ga) => {
+                    let kb = k.reparameterize(&th).expect("set_parameters accepted these parameters");
+                    let gb = GaussianProcess::train(kb, x, y, nm).expect("set_parameters trained this kernel");
+                    format!("{} {}", state_block(&ga, &xq), state_block(&gb, &xq))
+                }
             }
         }
         "gp.predict_mean" => {
